@@ -27,6 +27,7 @@ def read_state(path):
     for e in (data if isinstance(data, list) else [data]):
         r = e['results']
         out.append({'size': e['inputs']['code']['parameters']['L_x'], 'rate': e['inputs']['error_rate'],
+                    'dec': str(e['inputs']['decoder']['parameters'].get('error_type')),
                     'n_runs': r['n_runs'], 'lens': [len(r['effective_error']), len(r['success']), len(r['codespace'])],
                     'eff': r['effective_error'], 'succ': r['success'], 'cs': r['codespace']})
     return out
@@ -42,7 +43,8 @@ def scenario(sc):
         out = os.path.join(tmp, 'results.json' + ('.gz' if sc['gz'] else ''))
         steps = []
         for st in sc['steps']:
-            a = {'out': out, 'sizes': st['sizes'], 'rates': st['rates'], 'target': st['target'], 'save_freq': st['save_freq'], 'event': st['event']}
+            a = {'out': out, 'sizes': st['sizes'], 'rates': st['rates'], 'decs': st.get('decs', [{}]), 'target': st['target'],
+                 'save_freq': st['save_freq'], 'event': st['event']}
             before = read_state(out)
             rc, err = run_child(a)
             after = read_state(out)
@@ -56,11 +58,14 @@ def main():
     out, tier, seed = sys.argv[1], sys.argv[2], int(sys.argv[3])
     rng = random.Random(seed)
     scs = []
-    base = {'sizes': [2, 3], 'rates': [0.1]}
+    bases = [{'sizes': [2, 3], 'rates': [0.1]},
+             # two simulations that differ ONLY in the decoder parameters (high rate: their results differ visibly)
+             {'sizes': [3], 'rates': [0.3], 'decs': [{}, {'error_type': 'X'}]}]
     # systematic: every trial boundary, every byte-offset class of a checkpoint write, both container kinds
     for gz in (False, True):
         for f in (1, 2, 3):
             T = 5
+            base = bases[(f + gz) % 2] if f < 3 else bases[rng.randrange(2)]
             for kind, ats in (('kbd_trial', range(1, 2 * T + 1, 1 if tier == 'thorough' else 3)), ('kill_trial', range(1, 2 * T + 1, 3)),
                               ('kbd_save', (1, 2)), ('kill_after_save', (1, 2))):
                 for at in ats:
@@ -79,16 +84,19 @@ def main():
         T1 = rng.randint(2, 6)
         sizes0 = rng.choice([[2], [2, 3], [2, 3]])
         rates0 = rng.choice([[0.1], [0.1], [0.1, 0.3]])
-        steps = [dict(sizes=sizes0, rates=rates0, target=T1, save_freq=rng.choice([1, 2, 3]),
+        # decoder axis: one or two parameter sets of the SAME decoder class (records differ only in the decoder parameters)
+        decs0 = rng.choice([[{}], [{}], [{}, {'error_type': 'X'}], [{'error_type': 'Z'}, {}]])
+        steps = [dict(sizes=sizes0, rates=rates0, decs=decs0, target=T1, save_freq=rng.choice([1, 2, 3]),
                       event=rng.choice([{'kind': 'none'}, {'kind': 'kbd_trial', 'at': rng.randint(1, T1)}, {'kind': 'kill_write', 'at': 1, 'bytes': rng.choice([0, 30, 100000])}]))]
         # the specification grows: a size and/or a rate is appended (appending a rate shifts the position of every later code's records)
         grown_sizes = sizes0 + ([max(sizes0) + 1] if rng.random() < 0.5 else [])
         grown_rates = rates0 + ([0.2] if rng.random() < 0.6 else [])
+        grown_decs = decs0 + ([{'error_type': 'X'}] if (len(decs0) == 1 and decs0[0] == {} and rng.random() < 0.4) else [])
         T2 = T1 + rng.randint(0, 4)
         if rng.random() < 0.5:
-            steps.append(dict(sizes=grown_sizes, rates=grown_rates, target=T2, save_freq=rng.choice([1, 2]),
+            steps.append(dict(sizes=grown_sizes, rates=grown_rates, decs=grown_decs, target=T2, save_freq=rng.choice([1, 2]),
                               event={'kind': rng.choice(['kbd_trial', 'kill_trial']), 'at': rng.randint(1, 6)}))
-        steps.append(dict(sizes=grown_sizes, rates=grown_rates, target=T2 + rng.randint(0, 3), save_freq=rng.choice([1, 2, 3]), event={'kind': 'none'}))
+        steps.append(dict(sizes=grown_sizes, rates=grown_rates, decs=grown_decs, target=T2 + rng.randint(0, 3), save_freq=rng.choice([1, 2, 3]), event={'kind': 'none'}))
         scs.append({'gz': gz, 'steps': steps})
     with ThreadPool(16) as pool:
         res = pool.map(scenario, scs)
